@@ -189,7 +189,9 @@ func (x *Exec) declsFor(text string) string {
 		}
 	}
 	for _, s := range usedLits {
-		fmt.Fprintf(&b, "(declare-const %s Str) ; %q\n", c.lits[s], s)
+		if !c.isPreset[c.lits[s]] {
+			fmt.Fprintf(&b, "(declare-const %s Str) ; %q\n", c.lits[s], s)
+		}
 		fmt.Fprintf(&b, "(assert (= (slen %s) %d))\n", c.lits[s], len(s))
 	}
 	if len(usedLits) > 1 {
